@@ -282,6 +282,7 @@ func TestVerifScan(t *testing.T) {
 		t.Fatal(err)
 	}
 	rep := &simReport{Extra: map[string]any{}}
+	simOnStall("scan_result.json", rep)
 	defer func() {
 		rep.Events = ndj.Count()
 		ndj.Close()
@@ -290,7 +291,7 @@ func TestVerifScan(t *testing.T) {
 	rng := rand.New(rand.NewSource(seed))
 	do := func(sc scanScenario) scanRun {
 		var run scanRun
-		synctest.Test(t, func(t *testing.T) { run = runScan(sc) })
+		verifsim.Bubble(t, func(t *testing.T) { run = runScan(sc) })
 		scanFlush(ndj, run.events)
 		rep.Scenarios++
 		if len(run.leftOpen) > 0 {
